@@ -8,6 +8,8 @@ import DafRel.Lemmas.SqlCompileSound
 
 namespace DafRel
 
+variable {I : NodeInv}
+
 /-! ### lookups that cannot fail -/
 
 mutual
@@ -161,13 +163,13 @@ theorem atom_payDom (s : SqlState) (t : Rel) (p : SqlPayload) (hrd : t.PayReady 
 
 /-! ### the induction -/
 
-structure TotalOK (σ : Leaves) (s : SqlState) (fuel : Nat) : Prop where
-  select : ∀ S ctr, Good σ S → S.isSelect = true → S.PayReady s → S.compOK false = true →
+structure TotalOK (I : NodeInv) (σ : Leaves) (s : SqlState) (fuel : Nat) : Prop where
+  select : ∀ S ctr, Good I σ S → S.isSelect = true → S.PayReady s → S.compOK false = true →
     S.height ≤ fuel + 1 → ∃ q c, compileSelect s fuel S ctr = .ok (q, c)
-  payload : ∀ t ctr, Good σ t → t.PayReady s → t.compOK false = true → t.height ≤ fuel →
+  payload : ∀ t ctr, Good I σ t → t.PayReady s → t.compOK false = true → t.height ≤ fuel →
     ∃ p c, toPayload s fuel t ctr = .ok (p, c) ∧ PayDom p t.columns
 
-theorem total_zero (σ : Leaves) (s : SqlState) : TotalOK σ s 0 := by
+theorem total_zero (σ : Leaves) (s : SqlState) : TotalOK I σ s 0 := by
   refine ⟨?_, ?_⟩
   · intro S ctr _ hs _ _ hh
     cases S <;> simp [Rel.isSelect] at hs
@@ -175,8 +177,8 @@ theorem total_zero (σ : Leaves) (s : SqlState) : TotalOK σ s 0 := by
   · intro t ctr _ _ _ hh
     cases t <;> simp [Rel.height] at hh
 
-theorem total_payload_step (σ : Leaves) (s : SqlState) (fuel : Nat) (ih : TotalOK σ s fuel) :
-    ∀ t ctr, Good σ t → t.PayReady s → t.compOK false = true → t.height ≤ fuel + 1 →
+theorem total_payload_step (σ : Leaves) (s : SqlState) (fuel : Nat) (ih : TotalOK I σ s fuel) :
+    ∀ t ctr, Good I σ t → t.PayReady s → t.compOK false = true → t.height ≤ fuel + 1 →
       ∃ p c, toPayload s (fuel+1) t ctr = .ok (p, c) ∧ PayDom p t.columns := by
   intro t ctr gt hrd hsh hh
   cases t with
@@ -252,8 +254,8 @@ theorem total_payload_step (σ : Leaves) (s : SqlState) (fuel : Nat) (ih : Total
       · simp only [Rel.columns, hcc]
         exact payDom_merge pl pr l.columns r.columns _ _ Pl Pr
 
-theorem total_select_step (σ : Leaves) (s : SqlState) (fuel : Nat) (ih : TotalOK σ s fuel) :
-    ∀ S ctr, Good σ S → S.isSelect = true → S.PayReady s → S.compOK false = true →
+theorem total_select_step (σ : Leaves) (s : SqlState) (fuel : Nat) (ih : TotalOK I σ s fuel) :
+    ∀ S ctr, Good I σ S → S.isSelect = true → S.PayReady s → S.compOK false = true →
       S.height ≤ fuel + 2 → ∃ q c, compileSelect s (fuel+1) S ctr = .ok (q, c) := by
   intro S ctr gS hs hrd hsh hh
   obtain ⟨hS, gk⟩ := gS.selInv hs
@@ -270,7 +272,7 @@ theorem total_select_step (σ : Leaves) (s : SqlState) (fuel : Nat) (ih : TotalO
       simp only [hown, hit]
     have hslots : (Rel.select oid so pr dd a b sk ic tg).slots = ⟨so, pr, dd, a, b⟩ := rfl
     have hskip : (Rel.select oid so pr dd a b sk ic tg).skipTo = sk := rfl
-    have gk' : Good σ sk := hskip ▸ gk
+    have gk' : Good I σ sk := hskip ▸ gk
     have hsw : (⟨so, pr, dd, a, b⟩ : Slots).wfOn sk.columns := by
       have := hS.slotsWF; rw [hslots, hskip] at this; exact this
     have hhk : sk.height ≤ fuel := by simp only [Rel.height] at hh; omega
@@ -344,7 +346,7 @@ theorem total_select_step (σ : Leaves) (s : SqlState) (fuel : Nat) (ih : TotalO
   | transfer => simp [Rel.isSelect] at hs
 
 /-- **Compilation is total** on Good trees of the compilable shape with payloads on leaves and markers. -/
-theorem compile_total (σ : Leaves) (s : SqlState) : ∀ fuel, TotalOK σ s fuel
+theorem compile_total (σ : Leaves) (s : SqlState) : ∀ fuel, TotalOK I σ s fuel
   | 0 => total_zero σ s
   | fuel+1 =>
     let ih := compile_total σ s fuel
@@ -367,5 +369,46 @@ theorem payReady_of_sqlReady (s : SqlState) (tables : List (List Row)) (σ : Lea
     rcases h with h | ⟨own, hown, P⟩
     · exact Or.inl ⟨h.1, payReady_of_sqlReady s tables σ sk h.2.1⟩
     · exact Or.inr ⟨own, hown, P.dom⟩
+
+/-! ### Payloads present on the INPUT tree -/
+
+/-- "This node holds a payload exposing its columns" (atoms); "a payload held by this Select exposes its columns". -/
+def domInv (s : SqlState) (h0 : s.payload 0 = none) : NodeInv where
+  atom := fun x => x.isAtom = true → x.PayReady s
+  sel := fun S => ∀ own, s.payload S.oid = some own → PayDom own S.columns
+  selNew := fun S hS own hown => by rw [hS, h0] at hown; cases hown
+
+theorem Good.payReady {s : SqlState} {σ : Leaves} {h0 : s.payload 0 = none} {t : Rel}
+    (h : Good (domInv s h0) σ t) (hj : t.joinsResolved = true) : t.PayReady s := by
+  induction h with
+  | atom r ha _ _ _ hI => exact hI ha
+  | unary op t c _ _ ih => exact ih (by simpa [Rel.joinsResolved] using hj)
+  | chain l r c _ _ _ ihl ihr =>
+    simp only [Rel.joinsResolved, Bool.and_eq_true] at hj
+    exact ⟨ihl hj.1.1, ihr hj.1.2, trivial⟩
+  | join j l r c _ _ _ _ _ ihl ihr =>
+    simp only [Rel.joinsResolved, Bool.and_eq_true] at hj
+    exact ⟨ihl hj.1.1, ihr hj.1.2, hj.2⟩
+  | sel S hS _ _ hI _ ih =>
+    have hs := hS.isSel
+    cases S with
+    | select oid so pr dd a b sk ic tg =>
+      cases hp : s.payload oid with
+      | none => exact Or.inl ⟨hp, ih (by simpa [Rel.joinsResolved, Rel.skipTo] using hj)⟩
+      | some own => exact Or.inr ⟨own, hp, hI own hp⟩
+    | leaf => simp [Rel.isSelect] at hs
+    | unary => simp [Rel.isSelect] at hs
+    | binary => simp [Rel.isSelect] at hs
+    | mat => simp [Rel.isSelect] at hs
+    | transfer => simp [Rel.isSelect] at hs
+
+theorem atomsOK_of_payReady (s : SqlState) (h0 : s.payload 0 = none) :
+    (t : Rel) → t.RawSql → t.PayReady s → t.AtomsOK (domInv s h0)
+  | .leaf .., _, hf => fun _ => hf
+  | .mat .., _, hf => fun _ => hf
+  | .transfer .., _, hf => fun _ => hf
+  | .unary _ t _, hr, hf => atomsOK_of_payReady s h0 t hr hf
+  | .binary _ l r _, hr, hf => ⟨atomsOK_of_payReady s h0 l hr.1 hf.1, atomsOK_of_payReady s h0 r hr.2.1 hf.2.1⟩
+  | .select .., hr, _ => by cases hr
 
 end DafRel
